@@ -177,7 +177,83 @@ fn indented_yaml(out: &mut Out, rng: &mut Rng, thorough: bool) {
 	}
 }
 
+/// The command line with several file arguments in mixed formats (resolved by
+/// extension, by `-f`, or by detection): stdout is the concatenation, in
+/// order, of what each file gives alone.
+fn binary_multi_file(out: &mut Out, rng: &mut Rng, thorough: bool) {
+	use crate::procs::{self, Status};
+	use std::time::Duration;
+	let Some(bin) = procs::bin(true) else {
+		out.count("binary.missing");
+		return;
+	};
+	let dir = procs::scratch_dir("c03");
+	let rounds = if thorough { 120 } else { 25 };
+	for round in 0..rounds {
+		let nfiles = rng.range(2, 5) as usize;
+		let mut files: Vec<String> = vec![];
+		for k in 0..nfiles {
+			let f = *rng.pick(&[Fmt::Json, Fmt::Yaml, Fmt::Msgpack, Fmt::Toml]);
+			let mut o = crate::gen::GenOpts::cdm().for_formats(&[f]);
+			o.root_collection = true;
+			o.root_map = f == Fmt::Toml || rng.chance(1, 2);
+			let ndocs = if f == Fmt::Toml { 1 } else { rng.range(1, 3) as usize };
+			let docs: Vec<Vec<u8>> = (0..ndocs).filter_map(|_| crate::gen::spell(f, &crate::gen::gen_doc(rng, &o), &crate::gen::Spelling::plain())).collect();
+			let bytes = crate::gen::join_stream(f, &docs, rng);
+			// By extension (mostly), or extensionless (detection decides).
+			let name = if rng.chance(4, 5) {
+				let ext = match f {
+					Fmt::Json => "json",
+					Fmt::Yaml => *rng.pick(&["yaml", "yml"]),
+					Fmt::Msgpack => "msgpack",
+					Fmt::Toml => "toml",
+				};
+				format!("{dir}/r{round}f{k}.{ext}")
+			} else {
+				format!("{dir}/r{round}f{k}")
+			};
+			std::fs::write(&name, &bytes).expect("write scratch file");
+			files.push(name);
+		}
+		for to in STREAM_FMTS {
+			let t = format!("-t{}", to.letter());
+			let mut args = vec![t.clone()];
+			args.extend(files.iter().cloned());
+			let all = procs::run(&bin, &args, None, Duration::from_secs(60));
+			let mut expected = vec![];
+			let mut first_failure = false;
+			for f in &files {
+				let one = procs::run(&bin, &[t.clone(), f.clone()], None, Duration::from_secs(60));
+				expected.extend_from_slice(&one.stdout);
+				if one.status != Status::Exit(0) {
+					first_failure = true;
+					break;
+				}
+			}
+			out.eval("binary_multi_file_concat", &format!("{round}{}", to.name()), !first_failure);
+			let want_status = if first_failure { Status::Exit(1) } else { Status::Exit(0) };
+			if all.stdout != expected || all.status != want_status {
+				out.fail(
+					"binary_multi_file_concat",
+					"",
+					format!(
+						"xt {} with files {:?}: stdout {} status {:?}, but the files one by one give {} (status {:?} expected)",
+						t,
+						files.iter().map(|f| f.rsplit('/').next().unwrap_or("").to_string()).collect::<Vec<_>>(),
+						crate::util::hex(&all.stdout[..all.stdout.len().min(200)]),
+						all.status,
+						crate::util::hex(&expected[..expected.len().min(200)]),
+						want_status
+					),
+				);
+			}
+		}
+	}
+	let _ = std::fs::remove_dir_all(&dir);
+}
+
 pub fn run(out: &mut Out, rng: &mut Rng, thorough: bool) {
+	binary_multi_file(out, &mut rng.fork(), thorough);
 	let n = if thorough { 2500 } else { 260 };
 	for i in 0..n {
 		let to = STREAM_FMTS[i % 3];
